@@ -103,16 +103,16 @@ def storage_partition(torch, obj):
     return out
 
 
-def synthetic_zip(path, markers, deep, leading_junk=b"", trailing=b"", filler=0):
+def synthetic_zip(path, markers, deep, leading_junk=b"", trailing=b"", filler=0, dirname="archive"):
     """A zip whose member names are exactly the chosen marker names (at root or one directory deep).
     filler: that many small records in front of the markers (torch writes the tensor records first)."""
     buf = io.BytesIO()
     with zipfile.ZipFile(buf, "w") as z:
-        z.writestr(("archive/" if deep else "") + "readme.txt", b"filler")
+        z.writestr((dirname + "/" if deep else "") + "readme.txt", b"filler")
         for k in range(filler):
-            z.writestr(("archive/" if deep else "") + f"data/{k}", b"\x00")
+            z.writestr((dirname + "/" if deep else "") + f"data/{k}", b"\x00")
         for m in markers:
-            name = ("archive/" if deep else "") + m
+            name = (dirname + "/" if deep else "") + m
             if m.endswith(".pkl"):
                 body = b"\x80\x02]q\x00(K\x01K\x02e."
             elif m == "version":
